@@ -276,6 +276,11 @@ def check(ctx, base_text, u, bv, name, args, spec, bshape, encoded_base=False):
         exp.pop("raw_query_string")  # C12 judges the content
         if not encoded_base and rfc.component_errors(rv["raw_query_string"], rfc.QUERY_CHARS):
             errs.append(f"raw_query_string={rv['raw_query_string']!r} not RFC-legal")
+        if spec["query"] == "without":
+            # the targeted component reads back as asked: no pair with a removed key is left, however often it occurred
+            left = guarded(lambda: [k for k in r.query.keys() if k in args])
+            if is_exc(left) or left:
+                errs.append(f"query still has the removed key(s): {left!r} (raw_query_string={rv['raw_query_string']!r})")
     elif "path" in spec or spec.get("pathop"):
         exp.pop("raw_path")  # C13/C15 judge the content
         if not spec["kq"]:
@@ -409,7 +414,7 @@ def run(ctx):
             i += 1
             if not ctx.mine(i):
                 continue
-            base_text = (sch + ":" if sch else "") + "//" + ui + h + port + path + "?q=1#f"
+            base_text = (sch + ":" if sch else "") + "//" + ui + h + port + path + ("?q=1#f" if i % 2 else "?q=1&b=2&q=3&q#f")
             u = guarded(URL, base_text)
             if is_exc(u):
                 ctx.count("base_rejected")
